@@ -127,6 +127,35 @@ func (C04) Gen(r *core.Rng, tier string, emit func(string)) {
 		}
 		emit(sb.String())
 	}
+	// a root directory that ends exactly at byte 16384 of the archive (127 + 16257: the largest the format allows),
+	// one byte short of it, and well inside: the last byte of the first 16 KiB belongs to the root
+	for _, target := range []int{16257, 16256, 16200} {
+		n := (target - 2) / 4
+		extra := target - 2 - 4*n // entries whose length takes a second varint byte
+		data := make([]byte, 200)
+		for i := range data {
+			data[i] = byte('a' + i%26)
+		}
+		es := make([]pmtiles.EntryV3, n)
+		for i := range es {
+			l := uint32(3)
+			if i < extra {
+				l = 200
+			}
+			es[i] = pmtiles.EntryV3{TileID: uint64(1 + i), Offset: 0, Length: l, RunLength: 1}
+		}
+		ts := tileSet{entries: es, data: data}
+		ba := assembleArchive(&archDir{entries: es, sub: make([]*archDir, n)}, ts, pmtiles.NoCompression, baseHeader(), []byte("{}"))
+		if int(ba.header.RootLength) != target {
+			continue // the construction did not land on the byte: nothing to say
+		}
+		var sb strings.Builder
+		fmt.Fprintf(&sb, "arch none %s %s Q", hexs(data), ba.dirsLine())
+		for _, q := range []uint64{0, 1, 2, uint64(extra), uint64(extra) + 1, uint64(n / 2), uint64(n) - 1, uint64(n), uint64(n) + 1} {
+			fmt.Fprintf(&sb, " %d", q)
+		}
+		emit(sb.String())
+	}
 }
 
 func baseHeader() pmtiles.HeaderV3 {
